@@ -1078,7 +1078,25 @@ func c10ScriptedB(r *Run, log2 uint64, cpu int, gpus []int, ops []string, buddy 
 	}, true)
 }
 
+// c10BuddyNoFree: buddy-allocator histories WITHOUT any free (the listed buddy findings all need a
+// free): multi-page remaps with non-power-of-two page counts followed by further allocations; the
+// invariant oracle must see no physical page handed out twice.
+func c10BuddyNoFree(r *Run) {
+	for _, n := range []int{2, 3, 5, 6, 7, 9} {
+		sz := fmt.Sprintf("%x", n*4096)
+		next := 0x1000 + n*4096
+		ops := []string{"init", "alloc 0 " + sz, fmt.Sprintf("remap 0 1000 %s 1", sz),
+			"alloc 0 1000", fmt.Sprintf("remap 0 %x 1000 1", next),
+			"alloc 0 2000", fmt.Sprintf("remap 0 %x 2000 1", next+0x1000),
+			"alloc 0 " + sz, fmt.Sprintf("remap 0 %x %s 1", next+0x3000, sz),
+			"alloc 0 1000", fmt.Sprintf("remap 0 %x 1000 1", next+0x3000+n*4096)}
+		c10ScriptedB(r, 12, 8, []int{64}, ops, true)
+		r.Count("buddy.nofree")
+	}
+}
+
 func runC10(r *Run, rng *Rng, replay string) {
+	c10BuddyNoFree(r)
 	// common.go's NewRng(seed) starts splitmix64 at seed*gamma: consecutive seeds give the same
 	// stream shifted by one draw. Re-seed from a mixed output so that seeds give unrelated histories.
 	rng = NewRng(rng.U64() ^ (r.Seed << 32) ^ 0xC10C10)
